@@ -23,7 +23,8 @@ RULE = ("each execution draws (from shuttle's own PRNG, so it is part of the sch
         "another thread}; every Mutex/Condvar operation of the real semaphore.rs is a scheduling point, the woken waiter is "
         "chosen by the scheduler, up to 2 spurious wake-ups per execution are injected; schedulers: seeded random and PCT "
         "(depth 2..5) over 16 processes with distinct seeds, plus shuttle's DFS on the 2-thread/1-pair/1-permit scenario as a "
-        "cross-check (thorough). Oracles: holders <= permits at every acquisition, no deadlock / step-budget overrun (lost "
+        "cross-check (thorough); plus 36 fixed cases outside shuttle in which a holder fails (unwinds) while it holds 1..3 "
+        "guards with a waiter started before or after. Oracles: holders <= permits at every acquisition, no deadlock / step-budget overrun (lost "
         "wake-up), after all guards are dropped the full permit count can be acquired without blocking. non-trivial = every "
         "execution (each contains >= 2 contending threads); distinct = distinct (process, scenario-hash) pairs is NOT "
         "measurable per schedule, so the count reported is the number of harness processes whose scenario mix differed")
@@ -72,6 +73,14 @@ def main(args, seed):
     os.makedirs(core.SHM, exist_ok=True)
     if args.replay:
         j = json.load(open(args.replay))
+        if j.get("mode") == "unwind":
+            r = shuttle.run_bin(shuttle.B1_BIN, ["unwind"], timeout=600)
+            if r["failed"]:
+                print("replay: fails again: %s" % r["message"])
+                print("VIOLATION property=%s replay=%s" % (ID, args.replay))
+                return 1
+            print("replay: no violation reproduced")
+            return 0
         r = shuttle.run_bin(shuttle.B1_BIN, ["replay", "--file", j["schedule_file"]] + _bounds_args(j["bounds"]))
         oracle = any(k in r["message"] for k in ("semaphore admitted", "deadlock", "holders counter", "max_steps", "exceeded"))
         if r["failed"] and not oracle:
@@ -106,6 +115,20 @@ def main(args, seed):
     executions = sum(r["executions"] for r in results)
     rc = 0
     violations = 0
+    # a holder that FAILS while holding guards (they are dropped by the unwinding): std primitives, real threads, the
+    # outcome does not depend on the interleaving; shuttle cannot run it (it closes a mutex released while panicking)
+    unw = shuttle.run_bin(shuttle.B1_BIN, ["unwind"], timeout=600)
+    if unw["failed"]:
+        if "deadlock" not in unw["message"]:
+            raise HarnessError("b1 unwind: %s %s" % (unw["message"], unw.get("stderr_tail", "")[-300:]))
+        os.makedirs(REPLAYS, exist_ok=True)
+        rp = os.path.join(REPLAYS, "C19-%s-unwind.json" % seed)
+        json.dump({"property": ID, "engine": "B1", "seed": seed, "mode": "unwind", "message": unw["message"],
+                   "clause": "permits-back-after-holder-failed"}, open(rp, "w"), indent=1)
+        print("violation: %s" % unw["message"])
+        print("VIOLATION property=%s replay=%s" % (ID, rp))
+        rc = 1
+        violations += 1
     for (s, sd, it, out, d), r in zip(jobs, results):
         if r["failed"]:
             bounds, r2, sched_file = minimise(s, sd, BOUNDS, d or 3)
@@ -157,13 +180,15 @@ def main(args, seed):
             "schedules_per_hour": int(executions / max(wall, 1e-9) * 3600),
             "simulated_time_covered_s": 0,
             "faults_fired": {"spurious_wakeup": sum(r["spurious_fired"] for r in results),
-                             "guard_moved_to_other_thread": sum(r["moved_guards"] for r in results)},
+                             "guard_moved_to_other_thread": sum(r["moved_guards"] for r in results),
+                             "holder_failed_while_holding_guards": unw["executions"]},
             "probes": {"acquisitions": sum(r["acquisitions"] for r in results), "condvar_waits": sum(r["waits"] for r in results)},
             "dfs_baseline": None if dfs is None else {"executions": dfs["executions"], "failed": dfs["failed"],
                                                       "note": "shuttle DFS over the 2-thread/1-pair/1-permit scenario, capped at 300000 executions; a cross-check, not the claim"},
             "real_vs_stub": {"semaphore.rs": "real file from /repo (include!), compiled with --cfg fclones_verif_shuttle",
                              "Mutex/Condvar": "shuttle's scheduler-controlled primitives behind a shim that injects spurious wake-ups",
-                             "Arc": "std (no scheduling points)", "threads": "shuttle tasks"},
+                             "Arc": "std (no scheduling points)", "threads": "shuttle tasks",
+                             "failing holder (mode unwind)": "std Mutex/Condvar and real threads, 36 fixed cases (permits x held x guard style x waiter before/after); not schedule-dependent, shuttle cannot run a release during unwinding"},
             "distinct_measure": "distinct scenario-mix hashes over harness processes (per-schedule distinctness is not measured)",
         },
         "assumptions": ASSUMPTIONS, "wall_s": round(wall, 2), "violations": violations,
